@@ -1562,6 +1562,9 @@ class LuaFormatterWriter(LuaASTEchoWriter):
         return spaces
 
 
+_SECTION_LIKE_NAME_RE = re.compile(br'__\w+__$')
+
+
 class LuaMinifyTokenWriter(BaseLuaWriter):
     """Another minify writer.
 
@@ -1634,9 +1637,14 @@ class LuaMinifyTokenWriter(BaseLuaWriter):
             elif token.matches(lexer.TokName):
                 if self._last_was_name_keyword_number:
                     yield b' '
+                name = self._name_factory.get_short_name(token.code)
+                if self._last_was_newline and _SECTION_LIKE_NAME_RE.match(name):
+                    # (A line that consists of a name like __gfx__ would read
+                    # as a section header in a .p8 file.)
+                    yield b' '
                 self._last_was_name_keyword_number = True
                 self._last_was_newline = False
-                yield self._name_factory.get_short_name(token.code)
+                yield name
             elif token.matches(lexer.TokLabel):
                 self._last_was_name_keyword_number = False
                 self._last_was_newline = False
